@@ -450,6 +450,7 @@ def ob_roundtrips():
 
     def go(name, fn, ex, syms, assume, ref):
         ctx = Ctx()
+        ctx.exp_overflow = 709.782712893384      # exp / expm1 overflow (float64): a parameter of magnitude 1e3..1e6 must still be reproduced
         I = Interp(ctx)
         set_path(assume, ctx.facts)
         res = I.run(trace(fn, *ex), *syms)
@@ -457,7 +458,8 @@ def ob_roundtrips():
         for k, (got, want) in enumerate(zip(res, ref)):
             st, m, where = eq_goal(ctx, assume, got, want, name)
             if st != "unsat":
-                return rec(name, "inconclusive", detail=f"output {k}: {st} at {where}")
+                ok, msg = replay_accessors()
+                return rec(name, "violation" if ok else "inconclusive", detail=f"output {k}: {st} at {where} | replay: {msg}", replay=dict(func="c11:replay_accessors", kwargs={}))
         return rec(name, "discharged", vacuity=True)
     loc, sc = symarr("loc", (2,)), symarr("sc", (2,))
     out.append(go("C11/Normal(loc, scale): .loc/.scale return the constructor's values", lambda l, s_: (fd.Normal(l, s_).loc, fd.Normal(l, s_).scale),
@@ -488,6 +490,36 @@ def ob_roundtrips():
     out.append(go("C11/MultivariateNormal.covariance == ch ch^T for the unwrapped factor ch",
                   lambda c_: (eqx.tree_at(tri_where, unwrap(mvn), c_).covariance,), (jnp.eye(2),), (ch,), [], (ref,)))
     return out
+
+
+def replay_accessors():
+    """float64: every family's accessors against its constructor arguments over the magnitudes 1e-6 .. 1e6"""
+    import jax
+    jax.config.update("jax_enable_x64", True)
+    import jax.numpy as jnp
+    import flowjax.distributions as fd
+    bad = []
+    mags = [1e-6, 1e-3, 0.5, 1.0, 37.0, 89.0, 710.0, 1e3, 1e6]
+    for v in mags:
+        a = jnp.array([v, 2.5 * v])
+        cases = {
+            "Normal.scale": lambda: (fd.Normal(jnp.zeros(2), a).scale, a), "Normal.loc": lambda: (fd.Normal(a, jnp.ones(2)).loc, a),
+            "LogNormal scale": lambda: (fd.Normal(jnp.zeros(2), a).scale, a), "Exponential.rate": lambda: (fd.Exponential(a).rate, a),
+            "StudentT.df": lambda: (fd.StudentT(a, jnp.zeros(2), jnp.ones(2)).df, a), "StudentT.scale": lambda: (fd.StudentT(jnp.ones(2) * 3, jnp.zeros(2), a).scale, a),
+            "Uniform.maxval": lambda: (fd.Uniform(jnp.zeros(2), a).maxval, a), "Uniform.minval": lambda: (fd.Uniform(-a, jnp.ones(2) * 2e6).minval, -a),
+            "Gumbel.scale": lambda: (fd.Gumbel(jnp.zeros(2), a).scale, a), "Cauchy.scale": lambda: (fd.Cauchy(jnp.zeros(2), a).scale, a),
+            "Laplace.scale": lambda: (fd.Laplace(jnp.zeros(2), a).scale, a), "Logistic.scale": lambda: (fd.Logistic(jnp.zeros(2), a).scale, a),
+        }
+        for nm, f in cases.items():
+            try:
+                got, want = f()
+            except Exception as e:  # noqa
+                bad.append(f"{nm} at {v}: raised {type(e).__name__}")
+                continue
+            got, want = np.asarray(got, dtype=float), np.asarray(want, dtype=float)
+            if not np.all(np.isfinite(got)) or not np.allclose(got, want, rtol=1e-9, atol=0):
+                bad.append(f"{nm}: constructed with {want.tolist()} but the accessor returns {got.tolist()}")
+    return bool(bad), "; ".join(bad[:3]) or "accessors reproduce the constructor arguments over 1e-6..1e6 (float64)"
 
 
 def obligations(tier, seed):
